@@ -73,10 +73,11 @@ func (w tyWalker) accessibleFields(i int) []jField {
 	if t == nil || !t.IsStruct {
 		return nil
 	}
-	external := t.Kind == "named" && t.PkgPath != nil && *t.PkgPath != w.f.PkgPath
+	// the rule of the language: an unexported field is visible only in the package that declares it (whichever type
+	// it is reached through); the blank field never
 	var out []jField
 	for _, fl := range t.Fields {
-		if external && !isExportedGo(fl.Name) {
+		if fl.Name == "_" || (fl.Foreign && !isExportedGo(fl.Name)) {
 			continue
 		}
 		out = append(out, fl)
